@@ -9,14 +9,105 @@ RULE = ("C12 monitor at every commit: composite-object velocity == weighted sum 
         "moves); stored position advanced to the event time == weighted nearest-image barycentre.")
 
 
+def creator_cases(ctx):
+    """Scripted draws for the random node creators: centre components x direction vectors (x separation)."""
+    import itertools
+    comps = (-0.5, 0.1, 0.5)
+    vecs = [v for v in itertools.product(comps, repeat=3)]
+    for L in (1.0, 10.0):
+        centres = [c for c in itertools.product((0.001 * L, 0.5 * L, 0.999 * L), repeat=3)]
+        yield ("dipole", L, centres, vecs, (0.0, 0.5, ONE_BELOW))
+        step = 1 if ctx.thorough else 3
+        for j, c in enumerate(centres):
+            yield ("water", L, [c], vecs[::step], vecs)
+
+
+ONE_BELOW = 1.0 - 2.0 ** -53
+
+
+def check_creator(case):
+    """The initially generated molecules: root position == weighted nearest-image barycentre of the point masses,
+    every position inside the box, no velocity / time stamp."""
+    import math
+    import jellyfysh.setting as setting
+    from ..env import init_setting
+    from ..seam import Seam, scripted
+    from jellyfysh.base.node import Node
+    kind, L, centres, v1s, extra = case
+    init_setting((L, L, L), cubic=True, roots=1, per_root=2 if kind == "dipole" else 3)
+    if kind == "dipole":
+        from jellyfysh.input_output_handler.input_handler.random_node_creator.dipole_random_node_creator import \
+            DipoleRandomNodeCreator
+        creator = DipoleRandomNodeCreator(min_initial_dipole_separation=0.0, max_initial_dipole_separation=0.3 * L)
+    else:
+        from jellyfysh.input_output_handler.input_handler.random_node_creator.water_random_node_creator import \
+            WaterRandomNodeCreator
+        creator = WaterRandomNodeCreator(bond_length=0.1012 * L, bond_angle=1.9764)
+    fails = []
+    n = 0
+
+    def unit(x, lo, hi):
+        return (x - lo) / (hi - lo)
+    for c in centres:
+        for v1 in v1s:
+            others = extra if kind == "dipole" else [v2 for v2 in extra
+                                                     if abs(sum(a * b for a, b in zip(v1, v2))) <
+                                                     0.999 * math.sqrt(sum(a * a for a in v1) * sum(b * b for b in v2))]
+            for o in others:
+                # draws: centre (3 uniforms in [0, L]), vector(s) (3 uniforms in [-1, 1] each), separation (dipole)
+                ans = [x / L for x in c] + [unit(x, -1.0, 1.0) for x in v1]
+                ans += [o] if kind == "dipole" else [unit(x, -1.0, 1.0) for x in o]
+                node = Node()
+                try:
+                    with Seam(scripted(ans)):
+                        creator.fill_root_node(node)
+                except Exception as e:
+                    fails.append(("creator-exception", "%s creator, draws %r: %r" % (kind, ans, e)))
+                    continue
+                n += 1
+                root = node.value.position
+                kids = [ch.value.position for ch in node.children]
+                w = 1.0 / len(kids)
+                bad = None
+                for d in range(3):
+                    off = sum(w * (((k[d] - root[d]) + L / 2) % L - L / 2) for k in kids)
+                    if abs(off) > 1e-9 * L:
+                        bad = "root %r is off the nearest-image barycentre of its point masses %r by %.3e in " \
+                              "direction %d" % (root, kids, off, d)
+                    if not all(0.0 <= k[d] < L for k in kids) or not 0.0 <= root[d] <= L:
+                        bad = "position outside the box: root %r, point masses %r" % (root, kids)
+                if bad:
+                    fails.append(("creator-barycentre", "%s creator L=%r centre %r vectors %r/%r: %s"
+                                  % (kind, L, c, v1, o, bad)))
+                    if len(fails) > 3:
+                        break
+    setting.reset()
+    return ((kind, L), n), fails
+
+
 def run(ctx):
     from ..core import Result
+    from .. import par
+    from ..fl import enc
     res = Result()
     st = _enva.run_monitors(ctx, res, MON, FILTER)
-    res.coverage = _enva.coverage(st, MON, RULE)
+    cc = list(creator_cases(ctx))
+    n, sigs, fails = par.run_cases(check_creator, cc, ctx.cores, chunk=2)
+    for key, case, msg in fails:
+        res.add(key, {"creator_case": enc(case)}, msg)
+    res.coverage = _enva.coverage(st, MON, RULE + " Plus the real dipole / water random node creators under scripted "
+                                  "draws: all centres {0.001 L, L/2, 0.999 L}^3 x orientation vectors {-0.5, 0.1, 0.5}^3 "
+                                  "(x second vector / separation): molecules straddling every periodic face.")
+    res.coverage["creator_molecules"] = sum(k for _, k in sigs)
+    res.coverage["evaluations"] += res.coverage["creator_molecules"]
     res.assumptions = list(_enva.ASSUMPTIONS)
     return res
 
 
 def replay(ctx, case):
+    if "creator_case" in case:
+        from ..fl import dec
+        from .. import par
+        _, fails = par.guarded(check_creator)(dec(case["creator_case"]))
+        return sorted(set(k for k, _ in fails)) or None
     return _enva.replay(ctx, case, MON)
